@@ -6,6 +6,7 @@ package sctp
 import (
 	"container/heap"
 	"errors"
+	"fmt"
 	"net"
 	"os"
 	"sync"
@@ -265,6 +266,53 @@ type simNet struct {
 	filter func(dir int, idx int, p *wirePacket) planAction // targeted faults; nil = none
 	swapHeld [2]*netEvent
 	faultsOn bool
+	marked     bool
+	markIdx    [2]int
+	faultLimit int // random faults only hit the first faultLimit packets of a direction after the mark (0 = no limit)
+}
+
+// mark: packet indexes of planned (parameter) faults and of faultLimit count from here.
+func (n *simNet) mark() {
+	n.mu.Lock()
+	n.marked = true
+	n.markIdx = [2]int{len(n.w.pkts[0]), len(n.w.pkts[1])}
+	n.mu.Unlock()
+}
+
+// paramPlan: fault placements passed as scenario parameters p<j>d / p<j>i / p<j>a
+// (direction, packet index after the mark, action) - used by the k-fault sweeps.
+func (n *simNet) paramPlan(dir, rel int) planAction {
+	if !n.marked || n.w.params == nil {
+		return planNone
+	}
+	for j := 0; j < 3; j++ {
+		a, ok := n.w.params[fmt.Sprintf("p%da", j)]
+		if !ok || a == 0 {
+			continue
+		}
+		if n.w.params[fmt.Sprintf("p%dd", j)] == dir && n.w.params[fmt.Sprintf("p%di", j)] == rel {
+			switch a {
+			case 1:
+				return planDrop
+			case 2:
+				return planDup
+			case 3:
+				return planDelay
+			case 4:
+				return planSwap
+			}
+		}
+	}
+	return planNone
+}
+
+// inject schedules raw bytes for delivery to a connection (adversary, stale packet replay).
+func (n *simNet) inject(at time.Duration, to *simConn, raw []byte) {
+	n.mu.Lock()
+	d := make([]byte, len(raw))
+	copy(d, raw)
+	n.push(at, to, d, nil)
+	n.mu.Unlock()
 }
 
 func newSimNet(w *world, seed uint64) *simNet {
@@ -298,8 +346,14 @@ func (n *simNet) send(dir int, to *simConn, pkt *wirePacket) {
 		delay += time.Duration(tp.intn(q+1)) * 100 * time.Microsecond
 	}
 	act := planNone
+	rel := pkt.idx - n.markIdx[dir]
 	if a, ok := n.plan[dir][pkt.idx]; ok {
 		act = a
+	} else if pa := n.paramPlan(dir, rel); pa != planNone {
+		act = pa
+		if n.planDelayBy == 0 {
+			n.planDelayBy = 1500 * time.Millisecond
+		}
 	} else if n.filter != nil {
 		act = n.filter(dir, pkt.idx, pkt)
 	}
@@ -311,7 +365,7 @@ func (n *simNet) send(dir int, to *simConn, pkt *wirePacket) {
 		pkt.fate = "partition-drop"
 		return
 	}
-	if n.faultsOn && act == planNone {
+	if n.faultsOn && act == planNone && (n.faultLimit == 0 || (n.marked && rel < n.faultLimit)) {
 		if tp.chance(cfg.dropPPM) {
 			act = planDrop
 		} else if tp.chance(cfg.dupPPM) {
